@@ -7,7 +7,7 @@ Property theorems only (helper lemmas: `Parmcb/Lemmas/Fvs.lean`).  Quantified ov
 and every pop sequence `picks` of the heap that eventually hands out every vertex.
 -/
 namespace Parmcb.C13
-open Parmcb
+open Parmcb Parmcb.FvsL
 
 /-- the edges of `g` that survive the deletion of the vertex set `X` -/
 def survivingEdges (g : Graph) (X : List Nat) : List Nat :=
@@ -15,20 +15,20 @@ def survivingEdges (g : Graph) (X : List Nat) : List Nat :=
 
 /-- only vertices of the graph, each at most once -/
 theorem c13_vertices (g : Graph) (hs : g.simpleB = true) (picks : List Nat) :
-    (∀ v ∈ greedyFvs g picks, v < g.n) ∧ (greedyFvs g picks).Nodup := by
-  sorry
+    (∀ v ∈ greedyFvs g picks, v < g.n) ∧ (greedyFvs g picks).Nodup :=
+  vertices_aux g hs picks
 
 /-- **feedback vertex set**: deleting the emitted vertices leaves no cycle, whatever order the heap
 uses, provided it eventually hands out every vertex -/
 theorem c13_fvs (g : Graph) (hs : g.simpleB = true) (picks : List Nat)
     (hp : ∀ v, v < g.n → v ∈ picks) :
-    Acyclic g (survivingEdges g (greedyFvs g picks)) := by
-  sorry
+    Acyclic g (survivingEdges g (greedyFvs g picks)) :=
+  fvs_aux g hs picks hp
 
 /-- for a forest nothing is emitted -/
 theorem c13_forest (g : Graph) (hs : g.simpleB = true) (picks : List Nat)
-    (hf : Acyclic g (List.range g.m)) : greedyFvs g picks = [] := by
-  sorry
+    (hf : Acyclic g (List.range g.m)) : greedyFvs g picks = [] :=
+  forest_aux g hs picks hf
 
 /-- bookkeeping invariant behind both: `degree[w]` of an existing vertex is the number of its
 existing neighbours (so `degree[w]--` never underflows) — stated for the state before the main loop
@@ -38,7 +38,7 @@ def DegreeAccurate (g : Graph) (s : FvsState) : Prop :=
     s.deg w = ((g.adj w).filter fun p => s.isAlive p.2).length
 
 theorem c13_degree_accurate (g : Graph) (hs : g.simpleB = true) (picks : List Nat) :
-    DegreeAccurate g (picks.foldl (fvsPick g (fvsFuel g)) (fvsAfterInit g)) := by
-  sorry
+    DegreeAccurate g (picks.foldl (fvsPick g (fvsFuel g)) (fvsAfterInit g)) :=
+  degree_accurate_aux g hs picks
 
 end Parmcb.C13
